@@ -247,6 +247,28 @@ class StorageRef:
         return body is not None and self.finalizer in ((body.get('metadata') or {}).get('finalizers') or [])
 
 
+def late_echoes(run: runner.Run, min_delay: float) -> list[tuple[Any, float, float]]:
+    """(object name, t_written, t_delivered) for every write of an operator whose echo reached that operator's
+    own watch stream `min_delay` or more after the write -- whatever held it back: a delay injected into this very
+    event, or one injected into an earlier event of the same (FIFO) connection."""
+    cached = getattr(run, '_late_echoes', None)
+    if cached is None:
+        conn_actor: dict[Any, str] = {}
+        written: dict[tuple[str, Any, Any], float] = {}     # (operator, name, rv) -> t
+        cached = []
+        for e in run.sim.trace:
+            if e[2] == 'watch-open':
+                conn_actor[e[3]] = op_of(e[4])
+            elif e[2] == 'srv' and e[3] in ('patch', 'update') and len(e) > 9 and is_operator_actor(run, e[4]):
+                written[(op_of(e[4]), e[7], str(e[9]))] = e[1]
+            elif e[2] == 'watch-ev' and len(e) > 7:
+                t_w = written.get((conn_actor.get(e[3], ''), e[5], str(e[7])))
+                if t_w is not None:
+                    cached.append((e[5], t_w, e[1]))
+        run._late_echoes = cached  # type: ignore[attr-defined]
+    return [x for x in cached if x[2] - x[1] >= min_delay]
+
+
 def finished(rec: Optional[dict[str, Any]]) -> bool:
     return bool(rec and (rec.get('success') or rec.get('failure')))
 
